@@ -345,26 +345,43 @@ def acc_update(c):
     c.canary("canary_plus_neg", z3.And(have == "both", mode == "none", res.f == p.f + px + ny, ny != 0))
 
 
-@contract(P, "Accumulator.reduction", [(M, "Accumulator.reduction"), (M, "Accumulator.__init__")])
+@contract(P, "Accumulator.reduction", [(M, "Accumulator.reduction"), (M, "Accumulator.__init__"), (M, "Accumulator.pos"), (M, "Accumulator.neg"), (M, "Accumulator.update")])
 def acc_reduction(c):
+    """the configured reduction is THE function applied to the stack of all parts of a side - also when the side holds a
+    single part (a reduction need not be the identity on a stack of one: scaled sums, capped sums, RMS) - over dim 0,
+    for both sides; the value reaches update(); resetting restores the sum"""
     a = new_acc(c)
-    xs = [c.pw("x0"), c.pw("x1")]
-    RED = c.func("custom_reduce", z3.RealSort(), z3.RealSort(), z3.RealSort())
+    side = c.choice("side", ["pos", "neg"])
+    xs = [c.pw("x0"), c.pw("x1"), c.pw("x2")]
+    RED = {n: c.func(f"custom_reduce{n}", *([z3.RealSort()] * (n + 1))) for n in (1, 2, 3)}
     calls = []
 
     def red(it, stacked, dim):
         calls.append(dim)
-        return T(RED(stacked.f(z3.IntVal(0)), stacked.f(z3.IntVal(1))), "float")
+        n = stacked.tlen if isinstance(stacked.tlen, int) else None
+        if n not in RED:
+            raise __import__("pyvc.sym", fromlist=["Unsupported"]).Unsupported("reduction of a stack of unexpected length")
+        return T(RED[n](*[stacked.f(z3.IntVal(i)) for i in range(n)]), "float")
 
     c.call(c.getattr(a, "reduction"), Model(red, "custom_reduction"))
-    c.setattr(a, "pos", xs[0])
-    c.setattr(a, "pos", xs[1])
-    c.ensure("custom_reduction_used_over_dim0", z3.And(c.getattr(a, "pos").f == RED(xs[0].f, xs[1].f), calls == [0]))
+    c.setattr(a, side, xs[0])
+    one = c.getattr(a, side)
+    c.ensure("custom_reduction_applied_to_a_single_part", z3.And(one is not None, one.f == RED[1](xs[0].f), calls == [0]))
+    p = c.pw("p")
+    upd = c.call(c.getattr(a, "update"), p)
+    sgn = 1 if side == "pos" else -1
+    c.ensure("single_reduced_part_is_the_update", z3.And(upd is not None, upd.f == sgn * RED[1](xs[0].f)))
+    del calls[:]
+    c.setattr(a, side, xs[1])
+    c.ensure("custom_reduction_used_over_dim0", z3.And(c.getattr(a, side).f == RED[2](xs[0].f, xs[1].f), calls == [0]))
+    c.setattr(a, side, xs[2])
+    c.ensure("custom_reduction_of_three_parts_in_order", c.getattr(a, side).f == RED[3](xs[0].f, xs[1].f, xs[2].f))
     c.call(c.getattr(a, "reduction"), None)
-    c.interp.delattr(a, "pos")
-    c.setattr(a, "pos", xs[0])
-    c.setattr(a, "pos", xs[1])
-    c.ensure("default_is_sum", c.getattr(a, "pos").f == xs[0].f + xs[1].f)
+    c.interp.delattr(a, side)
+    c.setattr(a, side, xs[0])
+    c.setattr(a, side, xs[1])
+    c.ensure("default_is_sum", c.getattr(a, side).f == xs[0].f + xs[1].f)
+    c.canary("canary_single_part_unreduced", z3.And(one is not None, one.f == xs[0].f))
 
 
 def _parent(c, names=("weight", "bias")):
